@@ -12,6 +12,11 @@ type VerifGlyph struct {
 	Mask      uint32
 	Codepoint rune
 	Glyph     GID
+	// Unicode is GlyphInfo.unicode (general category, ignorable/hidden/continuation bits, modified
+	// combining class), GlyphProps is GlyphInfo.glyphProps: only copied by the buffer core, read by
+	// sort's comparison, the grapheme grouping and the default-ignorable filter.
+	Unicode    uint16
+	GlyphProps uint16
 }
 
 // VerifState is a snapshot of the buffer fields the model talks about.
@@ -28,7 +33,8 @@ type VerifState struct {
 func verifToInfos(gs []VerifGlyph) []GlyphInfo {
 	out := make([]GlyphInfo, len(gs)) // exact capacity
 	for i, g := range gs {
-		out[i] = GlyphInfo{Cluster: g.Cluster, Mask: g.Mask, codepoint: g.Codepoint, Glyph: g.Glyph}
+		out[i] = GlyphInfo{Cluster: g.Cluster, Mask: g.Mask, codepoint: g.Codepoint, Glyph: g.Glyph,
+			unicode: unicodeProp(g.Unicode), glyphProps: g.GlyphProps}
 	}
 	return out
 }
@@ -36,7 +42,8 @@ func verifToInfos(gs []VerifGlyph) []GlyphInfo {
 func verifFromInfos(gs []GlyphInfo) []VerifGlyph {
 	out := make([]VerifGlyph, len(gs))
 	for i, g := range gs {
-		out[i] = VerifGlyph{Cluster: g.Cluster, Mask: g.Mask, Codepoint: g.codepoint, Glyph: g.Glyph}
+		out[i] = VerifGlyph{Cluster: g.Cluster, Mask: g.Mask, Codepoint: g.codepoint, Glyph: g.Glyph,
+			Unicode: uint16(g.unicode), GlyphProps: g.glyphProps}
 	}
 	return out
 }
